@@ -174,7 +174,26 @@ def live_spec(el, spec):
             kw[pname] = v
         else:
             kw[pname] = spec["kw"][pname]
-    return {"cls": spec["cls"], "name": spec["name"], "kw": kw}
+    out = {"cls": spec["cls"], "name": spec["name"], "kw": kw}
+    if spec["cls"] == "RBend":
+        # rbend_e1/e2 are derived (dipole_e - angle/2): reading them back and re-adding angle/2 can differ by one ulp from the
+        # stored edge angles, so the fresh element is given the stored values themselves
+        out["_post"] = {"dipole_e1": el.dipole_e1.detach().tolist(), "dipole_e2": el.dipole_e2.detach().tolist()}
+    return out
+
+
+def build_fresh(spec):
+    seg = realgen.build(spec)
+
+    def fix(e, s):
+        if s["cls"] == "Segment":
+            for c, cs in zip(e.elements, s["es"]):
+                fix(c, cs)
+        elif "_post" in s:
+            for k, v in s["_post"].items():
+                setattr(e, k, torch.tensor(v, dtype=torch.float64))
+    fix(seg, spec)
+    return seg
 
 
 def read_diag(el):
@@ -207,6 +226,8 @@ def execute(case):
     has_offender = any(s["cls"] in CLONE_OFFENDERS for _, s in leaves(lat))
     val_ids, classes, obs, problems = {}, {}, [], []
     last_beam_at = [None] * len(diags)      # (spec at that time, beam index) of the last recorded beam
+    tainted = [False] * len(diags)          # BPM.track records even when inactive; transfer_maps_merged calls it directly
+    case['_unconstrained_reads'] = []
 
     def vid(pos, v):
         key = (pos, json.dumps(v))
@@ -254,6 +275,9 @@ def execute(case):
                     kind = o[1]
                     if kind == 0:
                         opt = seg.transfer_maps_merged(incoming_beam=b)
+                        for d, (p, _) in enumerate(diags):
+                            if isinstance(get_live(seg, p), cheetah.BPM) and not active[d]:
+                                tainted[d] = True     # merging tracks the beam through skippable elements directly (allowed): reading unspecified
                     elif kind == 1:
                         opt = seg.without_inactive_markers()
                     elif kind == 2:
@@ -261,6 +285,11 @@ def execute(case):
                     else:
                         opt = seg.inactive_elements_as_drifts()
                     out = opt.track(b)
+                    # the optimised lattice shares the retained element objects, so its diagnostics may have seen this beam --
+                    # through a lattice whose equivalence to the original is C08's business (known findings F9/F10 there):
+                    # read-outs are unspecified here until the next track through the original lattice
+                    for d, (p, _) in enumerate(diags):
+                        tainted[d] = True
                 h = hash_beam(out)
             except Exception as ex:
                 out, h = None, "exc:" + type(ex).__name__
@@ -274,7 +303,7 @@ def execute(case):
                 obs.append(cls_id(h))
                 # oracle: a freshly built lattice with the current values tracks identically
                 try:
-                    fresh = realgen.build(live_spec(seg, lat))
+                    fresh = build_fresh(live_spec(seg, lat))
                     hf = hash_beam(fresh.track(realgen.build_beam(case["beams"][bi])))
                 except Exception as ex:
                     hf = "exc:" + type(ex).__name__
@@ -289,12 +318,16 @@ def execute(case):
             el = get_live(seg, diags[d][0])
             r = read_diag(el)
             h = "read:" + hash_reading(r)
+            if tainted[d]:
+                obs.append(0)
+                case['_unconstrained_reads'].append(k)
+                continue
             obs.append(cls_id(h))
             # oracle: the reading equals that of a fresh lattice that saw only the last recorded beam
             if last_beam_at[d] is not None and isinstance(el, (cheetah.Screen, cheetah.BPM)):
                 spec_then, bi = last_beam_at[d]
                 try:
-                    fresh = realgen.build(spec_then)
+                    fresh = build_fresh(spec_then)
                     fresh.track(realgen.build_beam(case["beams"][bi]))
                     rf = "read:" + hash_reading(read_diag(get_live(fresh, diags[d][0])))
                 except Exception as ex:
@@ -321,7 +354,10 @@ def coq_case(case, obs, val_ids):
             s = s["es"][j]
         init_a.append(bool(s["kw"].get("is_active", False)))
     ops = []
-    for o in case["ops"]:
+    init_a_now = list(init_a)
+    for k, o in enumerate(case["ops"]):
+        if o[0] == "set_active":
+            init_a_now[o[1]] = o[2]
         if o[0] == "assign":
             ops.append(f"Assign {o[1]}%nat {zlit(val_ids[(o[1], json.dumps(o[2]))])}")
         elif o[0] == "set_active":
@@ -329,9 +365,15 @@ def coq_case(case, obs, val_ids):
         elif o[0] == "track":
             ops.append(f"Track {o[1]}")
         elif o[0] == "read":
-            ops.append(f"Read {o[1]}%nat")
+            if k in case.get('_unconstrained_reads', []):
+                ops.append(f"SetActive {o[1]}%nat {'true' if init_a_now[o[1]] else 'false'}")    # no-op: this read-out is unspecified
+            else:
+                ops.append(f"Read {o[1]}%nat")
         elif o[0] == "clone_track":
-            ops.append(f"CloneTrack {o[1]}" if not has_offender else f"Optim 9%nat {o[1]}")
+            if not has_offender:
+                ops.append(f"CloneTrack {o[1]}")
+            else:   # result unconstrained (clone of an F12 class) and the clone's diagnostics are its own: a no-op for the original
+                ops.append(f"SetActive 0%nat {'true' if (init_a_now[0] if init_a_now else False) else 'false'}")
         else:
             ops.append(f"Optim {o[1]}%nat {o[2]}")
     return (f"(({coq_list([zlit(x) for x in init_p])} : list Z), ({coq_list(['true' if a else 'false' for a in init_a])} : list bool), "
